@@ -3,7 +3,9 @@
    - the task runs its executable followed by the template's options and arguments in template order;
    - "<name>" is an input, "<out|name>" an output written on the command line; ":type" gives the type, bare
      arguments and outputs are fs-objects, bare option arguments are text, "--flag<name>" is a boolean flag;
-   - "?" optional (default None), "+" repeated (at least one), "*" repeated (default empty list), "=v" default v,
+   - "?" optional (default None), "+" repeated (at least one), "*" repeated (default empty list), "=v" default v
+     (a quoted default is the text between the quotes exactly as written: the tool, not the template parser, gives
+     a meaning to sequences such as \t),
      "$t" path template t; without "$" an output's path template is its name plus the extension of its type;
    - for a repeated option the flag is printed before every item.
    Model.CmdTemplate is imported for the AST / field / value types only. *)
